@@ -13,8 +13,11 @@ static void c02_continuation(World *w, Buf *b, int nops, uint8_t out[32]) {
     cmd_begin(b, ST_NO_SESSIONS, CC_ReadClock); run(b);
     cmd_begin(b, ST_NO_SESSIONS, CC_GetRandom); b_u16(b, 16); run(b);
     for (int i = 0; i < nops; i++) gen_op(w, b);
-    /* use every live session / sequence / key once */
-    for (int i = 0; i < w->nsess; i++) if (w->sess[i].policy) { cmd_begin(b, ST_NO_SESSIONS, CC_PolicyGetDigest); b_u32(b, w->sess[i].h); run(b); }
+    /* use every live session / sequence / key once; a PCR changes in between, so sessions that recorded a PCR generation notice */
+    cmd_begin(b, ST_SESSIONS, CC_PCR_Extend); b_u32(b, 10); auth_pw_s(b, ""); b_u32(b, 1); b_u16(b, ALG_SHA256); for (int q = 0; q < 32; q++) b_u8(b, 0x5a); run(b);
+    for (int i = 0; i < w->nsess; i++) if (w->sess[i].policy) {
+        cmd_begin(b, ST_NO_SESSIONS, CC_PolicyPCR); b_u32(b, w->sess[i].h); b_u16(b, 0); b_u32(b, 1); b_u16(b, ALG_SHA256); b_u8(b, 3); b_u8(b, 0); b_u8(b, 4); b_u8(b, 0); run(b);
+        cmd_begin(b, ST_NO_SESSIONS, CC_PolicyGetDigest); b_u32(b, w->sess[i].h); run(b); }
     for (int i = 0; i < w->nseq; i++) { cmd_begin(b, ST_SESSIONS, CC_SequenceUpdate); b_u32(b, w->seq[i].h); auth_pw_s(b, ""); b_2b(b, "tail", 4); run(b); }
     for (int i = 0; i < w->nctx; i++) { cmd_begin(b, ST_NO_SESSIONS, CC_ContextLoad); b_bytes(b, w->ctx[i].p, w->ctx[i].n); Rsp r = run(b);
         if (r.rc == 0 && r.len >= 14) { cmd_begin(b, ST_NO_SESSIONS, CC_FlushContext); b_u32(b, g32(r.p + 10)); run(b); } }
